@@ -14,7 +14,17 @@ RENAMES = {
         "Wr": "w_root", "NewCond": "state", "Et0": "eto", "precipitation": "rain", "gdd": "gdd_today",
     },
     "aquacrop/solution/irrigation.py": {"Irr": "depth_mm", "IrrReq": "req", "EffAdj": "eff"},
-    "aquacrop/solution/infiltration.py": {"ToStore": "to_store", "RunoffIni": "runoff0", "InflTot": "infl_tot"},
+    "aquacrop/solution/infiltration.py": {"ToStore": "to_store", "RunoffIni": "runoff0", "InflTot": "infl_tot", "precomp": "above", "excess": "backed_up"},
+    # locals the round-8 rules look at (T-LOOP, C05.i/j/k, C07.k, C08.b shared local, adjusted-FC agreement with its sibling renamed alike)
+    "aquacrop/initialize/calculate_HIGC.py": {"HIest": "hi_est", "HIGC": "coef", "tHI": "t_form"},
+    "aquacrop/utils/prepare_gdd.py": {"first_planting_date": "plant_dt", "current_year": "yr", "next_planting_date": "next_dt"},
+    "aquacrop/solution/root_development.py": {"tOld": "t_prev", "tAdj": "t_now", "EndProf": "done", "layeri": "lay", "ZrOld": "z_prev"},
+    "aquacrop/initialize/read_model_parameters.py": {"mock_simulation_end_date": "end_md", "mock_simulation_start_date": "plant_md",
+                                                     "last_simulation_year_does_not_start": "drop_last", "mature": "offset_days", "start_end_years": "yrs"},
+    "aquacrop/solution/canopy_cover.py": {"CCsen": "cc_sen", "dtCC": "dt_cc", "tCCadj": "t_cc"},
+    "aquacrop/initialize/compute_crop_calendar.py": {"tCGC": "t_growth", "tGDD": "t_decl", "tCD": "t_decl_cd"},
+    "aquacrop/solution/capillary_rise.py": {"compi": "k", "WCr": "w_cr"},
+    "aquacrop/solution/soil_evaporation.py": {"comp": "ci", "Wcheck": "w_lim"},
 }
 
 
